@@ -409,7 +409,7 @@ func genPrefix(t *rapid.T, names []string) string {
 
 func TestStateMachine(t *testing.T) {
 	builtinNames := listNames()
-	rec.Check(t, rec.Scale(3000, 60000), func(t *rapid.T) {
+	rec.Check(t, rec.Scale(3000, 30000), func(t *rapid.T) {
 		h := history{Builtins: rapid.Bool().Draw(t, "builtins")}
 		var names []string
 		if h.Builtins {
@@ -481,7 +481,7 @@ func classify(o outcome) string {
 // ---------------------------------------------------------------- debugger table (one command per first letter)
 
 func TestDebuggerStyleTable(t *testing.T) {
-	rec.Check(t, rec.Scale(2000, 20000), func(t *rapid.T) {
+	rec.Check(t, rec.Scale(2000, 12000), func(t *rapid.T) {
 		tbl := debug.Cmds{}
 		names := rapid.SliceOfNDistinct(rapid.StringMatching(`[a-d?][a-d]{0,3}`), 0, 5, func(s string) byte { return s[0] }).Draw(t, "names")
 		for _, n := range names {
